@@ -159,6 +159,7 @@ fn emit(w: &mut CaseWriter, sut: &mut Sut, d: &Db, c: &Chain, stream: &str) {
         (_, Res::Undef) => true,
         (AOut::Err(_), Res::Err) => true,
         (AOut::Rows(rs), Res::Ok(want)) => bag_eq(&want, rs),
+        (AOut::Err(_), Res::Ok(_)) => eager_error(d, c),
         _ => false,
     };
     w.count(if ok { "oracle:agree" } else { "oracle:differ" }, 1);
@@ -224,6 +225,7 @@ fn search(a: &Args) {
                 (_, Res::Undef) => true,
                 (AOut::Err(_), Res::Err) => true,
                 (AOut::Rows(rs), Res::Ok(want)) => bag_eq(&want, rs),
+                (AOut::Err(_), Res::Ok(_)) => eager_error(&d, &c),
                 _ => false,
             };
             if !ok {
@@ -297,6 +299,7 @@ fn show_mode(a: &Args, only_diff: bool) {
                         (_, Res::Undef) => true,
                         (AOut::Err(_), Res::Err) => true,
                         (AOut::Rows(rs), Res::Ok(want)) => bag_eq(&want, rs),
+                        (AOut::Err(_), Res::Ok(_)) => eager_error(&d, &c),
                         _ => false,
                     };
                     if ok { continue; }
